@@ -313,11 +313,12 @@ Proof.
   destruct (follow ps init [init] false targets) as [l e]. cbn [fst length] in *. lia.
 Qed.
 
-(* sensitive headers: without AlwaysCopy they reach only hosts net/http's rule allows, and
-   once stripped they never come back *)
-Lemma follow_sensitive ps init : has_always_copy ps = false ->
+(* sensitive headers: unless the caller asked for AlwaysCopy of that header, it reaches only
+   hosts net/http's rule allows, and once stripped it never comes back; no header is ever
+   duplicated *)
+Lemma follow_auth ps init : copies_auth ps = false ->
   forall targets via strip s,
-  In s (fst (follow ps init via strip targets)) -> s_sensitive s = true ->
+  In s (fst (follow ps init via strip targets)) -> s_auth s <> 0 ->
   strip = false /\ (s_host s = init \/ should_copy init (s_host s) = true).
 Proof.
   intros Hac. induction targets as [|t rest IH]; intros via strip s; cbn [follow].
@@ -326,12 +327,52 @@ Proof.
     destruct (follow ps init (via ++ [t]) (strip || negb (bytes_eqb init t) && negb (should_copy init t)) rest)
       as [l e] eqn:Ef.
     cbn [fst]. intros [Hs | Hs] Hsens.
-    + subst s. cbn [s_sensitive s_host] in *. rewrite Hac, orb_false_r in Hsens.
-      apply negb_true_iff in Hsens. apply orb_false_iff in Hsens as [H1 H2]. split; [assumption|].
+    + subst s. cbn [s_auth s_host] in *. rewrite Hac, orb_false_r in Hsens.
+      destruct (strip || negb (bytes_eqb init t) && negb (should_copy init t)) eqn:E;
+        [cbn in Hsens; congruence|].
+      apply orb_false_iff in E as [H1 H2]. split; [assumption|].
       apply andb_false_iff in H2 as [H2|H2]; apply negb_false_iff in H2.
       * left. apply bytes_eqb_eq in H2. now subst.
       * now right.
     + specialize (IH (via ++ [t]) (strip || negb (bytes_eqb init t) && negb (should_copy init t)) s).
       rewrite Ef in IH. cbn [fst] in IH.
       destruct (IH Hs Hsens) as [H1 H2]. apply orb_false_iff in H1 as [H1 _]. now split.
+Qed.
+
+Lemma follow_cookie ps init : copies_cookie ps = false ->
+  forall targets via strip s,
+  In s (fst (follow ps init via strip targets)) -> s_cookie s <> 0 ->
+  strip = false /\ (s_host s = init \/ should_copy init (s_host s) = true).
+Proof.
+  intros Hac. induction targets as [|t rest IH]; intros via strip s; cbn [follow].
+  - cbn. tauto.
+  - destruct (all_permit ps t via); [|cbn; tauto].
+    destruct (follow ps init (via ++ [t]) (strip || negb (bytes_eqb init t) && negb (should_copy init t)) rest)
+      as [l e] eqn:Ef.
+    cbn [fst]. intros [Hs | Hs] Hsens.
+    + subst s. cbn [s_cookie s_host] in *. rewrite Hac, orb_false_r in Hsens.
+      destruct (strip || negb (bytes_eqb init t) && negb (should_copy init t)) eqn:E;
+        [cbn in Hsens; congruence|].
+      apply orb_false_iff in E as [H1 H2]. split; [assumption|].
+      apply andb_false_iff in H2 as [H2|H2]; apply negb_false_iff in H2.
+      * left. apply bytes_eqb_eq in H2. now subst.
+      * now right.
+    + specialize (IH (via ++ [t]) (strip || negb (bytes_eqb init t) && negb (should_copy init t)) s).
+      rewrite Ef in IH. cbn [fst] in IH.
+      destruct (IH Hs Hsens) as [H1 H2]. apply orb_false_iff in H1 as [H1 _]. now split.
+Qed.
+
+Lemma follow_no_duplicates ps init : forall targets via strip s,
+  In s (fst (follow ps init via strip targets)) -> s_auth s <= 1 /\ s_cookie s <= 1.
+Proof.
+  induction targets as [|t rest IH]; intros via strip s; cbn [follow].
+  - cbn. tauto.
+  - destruct (all_permit ps t via); [|cbn; tauto].
+    destruct (follow ps init (via ++ [t]) (strip || negb (bytes_eqb init t) && negb (should_copy init t)) rest)
+      as [l e] eqn:Ef.
+    cbn [fst]. intros [Hs | Hs].
+    + subst s. cbn [s_auth s_cookie]. unfold b2n.
+      destruct (negb _ || copies_auth ps), (negb _ || copies_cookie ps); lia.
+    + specialize (IH (via ++ [t]) (strip || negb (bytes_eqb init t) && negb (should_copy init t)) s).
+      rewrite Ef in IH. now apply IH.
 Qed.
